@@ -175,3 +175,133 @@ let run path enc shape aux : string =
 
 let () =
   register "de.model.text" (function [path; enc; shape; _; aux] -> run path enc shape aux | _ -> "BADCASE")
+
+(* ------------------------------------------------------------------ [a_c02] the extended specification
+   spec.text.value2 <tp> <enc> <shape> <tdoc>  (model only; props/C02_ext.py, stream ext_spec)
+     -> ext=<b> sx=<b> | value (show_value syntax) | ERR:<class> (ERR:unfit = the specification does not fit)
+   TextDeSpec2.spec_value2 tp on the TextDoc document (encoding of ocaml/fam_spec.ml): tp = 1 what the tape path
+   yields (Props/C02_walk2.v C02_tape_path_ext_partial), tp = 0 the part the stream path shares (Props/C02_ext.v). *)
+let show_result2 (o : SerdeShape.dval Bytes.outcome) : string =
+  match o with
+  | Bytes.Err e when int_of_n e = 900 -> "ERR:unfit"
+  | _ -> show_result o
+
+let () =
+  register "spec.text.value2" (function [tp; enc; shape; d] ->
+      let doc = Fam_spec.parse_doc d in
+      let b01 b = if b then "1" else "0" in
+      (try
+         Printf.sprintf "ext=%s sx=%s | %s" (b01 (TextDeSpec2.ext_fields doc)) (b01 (TextDeSpec2.sx_fields doc))
+           (show_result2 (TextDeSpec2.spec_value2 (tp = "1") (decode_of enc) parse_f64 fops (parse_shape shape) doc))
+       with Crash -> crash_tag)
+                                       | _ -> "BADCASE")
+
+(* ------------------------------------------------------------------ [a_c02] one value visit under an arbitrary hint
+   de.hint.model <cls> <enc> <hint> <hex> <aux>     cls = tape (aux = canonical tape) | stream (aux = reader tokens)
+   The DESERIALIZER side of the models for the field `v` of the document: TextDeTape.tape_visit /
+   TextDeStream.stream_visit under the hint -- including the hints no runtime shape issues (char, str, bytes,
+   byte_buf, unit, unit_struct, newtype_struct, tuple_struct, i128, u128, identifier).  Output: the primitive visit
+   with its payload, or the kind of compound visit: (some) (newtype) (seq) (map) (enum) (unit); ERR:<class>.
+   i128 / u128 on the stream path: TextReaderTokenDeserializer has no such method, serde's default refuses: ERR:de. *)
+let thint_of_name (tape : bool) (h : string) : TextDeCommon.thint option =
+  match h with
+  | "any" -> Some TextDeCommon.THAny | "bool" -> Some TextDeCommon.THBool
+  | "i8" | "i16" | "i32" | "i64" -> Some TextDeCommon.THI64
+  | "i128" -> if tape then Some TextDeCommon.THI64 else None
+  | "u8" | "u16" | "u32" | "u64" -> Some TextDeCommon.THU64
+  | "u128" -> if tape then Some TextDeCommon.THU64 else None
+  | "f32" | "f64" -> Some TextDeCommon.THF64
+  | "char" -> Some (if tape then TextDeCommon.THStr else TextDeCommon.THAny)
+  | "str" | "identifier" -> Some TextDeCommon.THStr
+  | "string" -> Some TextDeCommon.THString
+  | "bytes" | "byte_buf" -> Some TextDeCommon.THBytes
+  | "option" -> Some TextDeCommon.THOption
+  | "unit" | "unit_struct" -> Some TextDeCommon.THUnit
+  | "newtype_struct" -> Some TextDeCommon.THNewtype
+  | "seq" | "tuple" | "tuple_struct" -> Some TextDeCommon.THSeq
+  | "map" -> Some TextDeCommon.THMap
+  | "struct" -> Some (TextDeCommon.THStruct false)
+  | "enum" -> Some TextDeCommon.THEnum
+  | "ignored_any" -> Some TextDeCommon.THIgnored
+  | _ -> failwith ("hint " ^ h)
+
+let show_tprim (p : TextDeCommon.tprim) : string =
+  match p with
+  | TextDeCommon.TPBool b -> if b then "(bool 1)" else "(bool 0)"
+  | TextDeCommon.TPI64 z -> "(i64 " ^ string_of_z z ^ ")"
+  | TextDeCommon.TPU64 n -> "(u64 " ^ string_of_n n ^ ")"
+  | TextDeCommon.TPF64 b -> "(f64 " ^ hexw 16 b ^ ")"
+  | TextDeCommon.TPStr (_, s) -> "(str " ^ hex_of_bytes s ^ ")"
+  | TextDeCommon.TPBytes s -> "(bytes " ^ hex_of_bytes s ^ ")"
+  | TextDeCommon.TPUnit -> "(unit)"
+
+let key_v = bytes_of_hex "76"
+
+let hint_tape dec (h : TextDeCommon.thint) (t : TextTok.ttok list) : string =
+  let en = nat_of_int (L.length t) in
+  let rec find ti n =
+    if n = 0 then None else
+    match TextDeTape.fields_next t ti en with
+    | Bytes.Ok (Some (((key, op), vi), ti')) -> if key = key_v then Some (op, vi) else find ti' (n - 1)
+    | _ -> None in
+  match find (nat_of_int 0) (L.length t + 1) with
+  | None -> "NOFIELD"
+  | Some (op, vi) ->
+    let o = match op with Some o -> o | None -> TextTok.Equal in
+    (match TextDeTape.tape_visit dec parse_f64 t h (TextDeTape.KOpVal (o, vi)) with
+     | Bytes.Ok (TextDeTape.TVPrim p) -> show_tprim p
+     | Bytes.Ok (TextDeTape.TVSome _) -> "(some)"
+     | Bytes.Ok (TextDeTape.TVNewtype _) -> "(newtype)"
+     | Bytes.Ok (TextDeTape.TVSeq _) -> "(seq)"
+     | Bytes.Ok (TextDeTape.TVMap _) -> "(map)"
+     | Bytes.Ok (TextDeTape.TVPropMap _) -> "(propmap)"
+     | Bytes.Ok (TextDeTape.TVEnum _) -> "(enum)"
+     | Bytes.Err e -> "ERR:" ^ class_name e
+     | _ -> crash_tag)
+
+let hint_stream dec (h : TextDeCommon.thint) (toks : TextReader.rtok list) : string =
+  let skip_value = function
+    | TextReader.ROpen :: r ->
+      let rec go d r = (match r with
+          | [] -> []
+          | TextReader.ROpen :: r' -> go (d + 1) r'
+          | TextReader.RClose :: r' -> if d = 0 then r' else go (d - 1) r'
+          | _ :: r' -> go d r') in
+      go 0 r
+    | _ :: r -> r
+    | [] -> [] in
+  let rec find = function
+    | [] -> None
+    | key :: rest ->
+      let rest' = (match rest with TextReader.ROp _ :: r -> r | r -> r) in
+      (match key, rest' with
+       | TextReader.RUnq k, v :: _ when k = key_v -> Some v
+       | _, _ -> find (skip_value rest')) in
+  match find toks with
+  | None -> "NOFIELD"
+  | Some tk ->
+    (match TextDeStream.stream_visit dec parse_f64 h tk with
+     | Bytes.Ok (TextDeStream.SVPrim p) -> show_tprim p
+     | Bytes.Ok TextDeStream.SVSome -> "(some)"
+     | Bytes.Ok TextDeStream.SVNewtype -> "(newtype)"
+     | Bytes.Ok (TextDeStream.SVSeq _) -> "(seq)"
+     | Bytes.Ok TextDeStream.SVMap -> "(map)"
+     | Bytes.Ok TextDeStream.SVPropMap -> "(propmap)"
+     | Bytes.Ok TextDeStream.SVEnum -> "(enum)"
+     | Bytes.Ok TextDeStream.SVSkipUnit -> "(unit)"
+     | Bytes.Err e -> "ERR:" ^ class_name e
+     | _ -> crash_tag)
+
+let () =
+  register "de.hint.model" (function [cls; enc; hint; _; aux] ->
+      let dec = decode_of enc in
+      (try
+         match thint_of_name (cls = "tape") hint with
+         | None -> "ERR:de"
+         | Some h ->
+           if cls = "tape" then hint_tape dec h (Ttglue.tape_of_string aux)
+           else (match rtoks_of_string aux with
+               | None -> "BADAUX"
+               | Some (toks, _) -> hint_stream dec h toks)
+       with Crash -> crash_tag)
+                                    | _ -> "BADCASE")
